@@ -11,6 +11,8 @@ import (
 	"github.com/attestantio/vouch/internal/vnd"
 	"github.com/attestantio/vouch/internal/vstub"
 	"github.com/attestantio/vouch/services/attester"
+	nullmetrics "github.com/attestantio/vouch/services/metrics/null"
+	"github.com/rs/zerolog"
 	e2wtypes "github.com/wealdtech/go-eth2-wallet-types/v2"
 )
 
@@ -135,15 +137,42 @@ func (h *hSubmitter) SubmitAttestations(_ context.Context, atts []*phase0.Attest
 	return nil
 }
 
+// hSpec is the chain specification New reads SLOTS_PER_EPOCH from.
+type hSpec struct {
+	spec map[string]any
+}
+
+func (h *hSpec) Spec(_ context.Context, _ *api.SpecOpts) (*api.Response[map[string]any], error) {
+	return &api.Response[map[string]any]{Data: h.spec, Metadata: map[string]any{}}, nil
+}
+
 // ---- duty and service construction ------------------------------------------
 
+// attNew builds the attester the way main does: through New, the slots per
+// epoch coming from the chain specification.
+func attNew(e *attEnv) *Service {
+	s, err := New(context.Background(),
+		WithLogLevel(zerolog.Disabled),
+		WithMonitor(&nullmetrics.Service{}),
+		WithProcessConcurrency(2),
+		WithSpecProvider(&hSpec{spec: map[string]any{"SLOTS_PER_EPOCH": e.ct.SPE}}),
+		WithChainTime(e.ct),
+		WithValidatingAccountsProvider(e.accts),
+		WithAttestationDataProvider(e.data),
+		WithAttestationsSubmitter(e.sub),
+		WithBeaconAttestationsSigner(e.signer),
+	)
+	vnd.Assert(err == nil && s != nil, optProperty+".new.accepted")
+	return s
+}
+
 type ndDutyInfo struct {
-	duty   *attester.Duty
-	vals   []phase0.ValidatorIndex
-	comms  []phase0.CommitteeIndex
-	pos    []uint64
-	sizes  map[phase0.CommitteeIndex]uint64
-	slot   phase0.Slot
+	duty  *attester.Duty
+	vals  []phase0.ValidatorIndex
+	comms []phase0.CommitteeIndex
+	pos   []uint64
+	sizes map[phase0.CommitteeIndex]uint64
+	slot  phase0.Slot
 }
 
 var committeeSizeChoices = []uint64{1, 9}
@@ -156,6 +185,8 @@ var (
 	optNoMissing        bool // every validator has an account
 	optNoZeroSig        bool // the signer signs for every account
 	optEpochPresent     bool // attested[epoch] exists in the pre-state
+
+	optProperty = "C01" // the property the running harness belongs to (label of the New obligation)
 )
 
 // ndDuty builds a duty of n validators with symbolic indices, committees and
@@ -184,10 +215,30 @@ func ndDuty(n int) *ndDutyInfo {
 		d.comms = append(d.comms, c)
 		d.pos = append(d.pos, p)
 	}
-	duty, err := attester.NewDuty(context.Background(), d.slot, 64, d.vals, d.comms, d.pos, d.sizes)
+	// the duty gets lists of its own: the oracle's record of what was assigned (d.vals, d.comms,
+	// d.pos) must not change when the code under test writes to the duty it is handed
+	sizes := map[phase0.CommitteeIndex]uint64{}
+	for k, v := range d.sizes {
+		sizes[k] = v
+	}
+	duty, err := attester.NewDuty(context.Background(), d.slot, 64, append([]phase0.ValidatorIndex(nil), d.vals...),
+		append([]phase0.CommitteeIndex(nil), d.comms...), append([]uint64(nil), d.pos...), sizes)
 	vnd.Assume(err == nil)
 	d.duty = duty
 	return d
+}
+
+// unchanged reports whether the duty still says what it was built with.
+func (d *ndDutyInfo) unchanged() bool {
+	vs, cs, ps := d.duty.ValidatorIndices(), d.duty.CommitteeIndices(), d.duty.ValidatorCommitteeIndices()
+	if len(vs) != len(d.vals) || len(cs) != len(d.comms) || len(ps) != len(d.pos) {
+		return false
+	}
+	same := true
+	for i := range d.vals {
+		same = vnd.And(same, vnd.And(vs[i] == d.vals[i], vnd.And(cs[i] == d.comms[i], ps[i] == d.pos[i])))
+	}
+	return same
 }
 
 // assigned reports whether the duty assigns committee c to validator v.
@@ -244,16 +295,9 @@ func newAttEnv(d *ndDutyInfo, withFailures bool) *attEnv {
 			e.sub.fail = true
 		}
 	}
-	e.s = &Service{
-		processConcurrency:         2,
-		slotsPerEpoch:              e.ct.SPE,
-		chainTime:                  e.ct,
-		validatingAccountsProvider: e.accts,
-		attestationDataProvider:    e.data,
-		attestationsSubmitter:      e.sub,
-		beaconAttestationsSigner:   e.signer,
-		attested:                   map[phase0.Epoch]map[phase0.ValidatorIndex]struct{}{},
-	}
+	e.s = attNew(e)
+	// New leaves the attested set empty; its arbitrary pre-state is filled in
+	// below and by the harnesses
 	epoch := phase0.Epoch(uint64(d.slot) / e.ct.SPE)
 	// arbitrary pre-state of the attested set for the duty epoch
 	if optEpochPresent || vnd.Bool("pre.epoch-present") {
@@ -284,12 +328,14 @@ func newAttEnv(d *ndDutyInfo, withFailures bool) *attEnv {
 // VerifC04_Attest: every signing request entry and every submitted attestation
 // carries the assignment of its own validator and the obtained data.
 func VerifC04_Attest() {
+	optProperty = "C04"
 	optValidData, optEpochPresent = true, true
 	c04Attest(vnd.IntRange("n", 1, 2))
 }
 
 // VerifC04_Attest3: three validators (thorough tier), one committee size.
 func VerifC04_Attest3() {
+	optProperty = "C04"
 	committeeSizeChoices = []uint64{9}
 	optValidData, optEpochPresent = true, true
 	c04Attest(3)
@@ -300,6 +346,7 @@ func c04Attest(n int) {
 	e := newAttEnv(d, false)
 	atts, err := e.s.Attest(context.Background(), d.duty)
 	_ = err
+	vnd.Assert(d.unchanged(), "C04.duty-handed-in-is-left-as-it-was")
 
 	skipped := false
 	for i, v := range d.vals {
@@ -527,6 +574,7 @@ func VerifC01_Housekeep() {
 // VerifC16_AttestOddDuties: duties with a position outside the committee, an
 // empty committee or duplicated validators never crash attesting.
 func VerifC16_AttestOddDuties() {
+	optProperty = "C16"
 	optValidData, optEpochPresent, optNoMissing = true, true, true
 	n := vnd.IntRange("n", 1, 2)
 	d := &ndDutyInfo{sizes: map[phase0.CommitteeIndex]uint64{}}
@@ -557,6 +605,7 @@ func VerifC16_AttestOddDuties() {
 // bookkeeping holds nothing older than e-1, whatever older epochs it held
 // before (skipped epochs, epochs whose attestations all failed).
 func VerifC20_AttestedBounded() {
+	optProperty = "C20"
 	optSimpleCommittees, optNoMissing, optNoZeroSig, optValidData, optEpochPresent = true, true, true, true, true
 	d := ndDuty(1)
 	e := newAttEnv(d, false)
@@ -580,6 +629,7 @@ func VerifC20_AttestedBounded() {
 // epoch naming a common validator) have no unsynchronised conflicting accesses,
 // and the common validator is signed for at most once (C01 under overlap).
 func VerifC17_TwoAttests() {
+	optProperty = "C17"
 	optSimpleCommittees, optNoMissing, optNoZeroSig, optValidData, optEpochPresent = true, true, true, true, true
 	d1 := ndDuty(1)
 	e := newAttEnv(d1, false)
